@@ -41,7 +41,18 @@ var (
 
 // knownClasses: property/oracle/class of confirmed genuine defects of the
 // unchanged tree. Only consulted in lenient mode.
-var knownClasses = map[string]bool{}
+var knownClasses = map[string]bool{
+	// pkg/scale/decode.go: ds.Read(buf) ignores the byte count, a short read of
+	// the underlying bytes.Buffer leaves the rest of buf zero (report, defect D1)
+	"C12/reencode/truncated-fixed-width-int-zero-filled": true, // decodeFixedWidthInt 16/32/64 bit
+	"C12/reencode/truncated-bytes-zero-filled":           true, // decodeBytes ([]byte, string)
+	"C12/reencode/truncated-compact-uint-zero-filled":    true, // decodeUint modes 2 and 3 (also every length prefix)
+	"C12/reencode/truncated-compact-bigint-zero-filled":  true, // decodeSmallInt mode 2, decodeBigInt big mode
+	// decodeBigInt has no range checks at all (defect D2)
+	"C12/reencode/noncanonical-compact-bigint-accepted": true,
+	// decodeBytes makes the declared length (up to 4 GiB) before reading (defect D3)
+	"C12/alloc/alloc-declared-bytes-length-preallocated": true,
+}
 
 func known(prop, oracle, class string) bool {
 	if knownClasses[prop+"/"+oracle+"/"+class] {
@@ -232,8 +243,8 @@ func (c *ctx) measured(inLen int, fn func()) (excess uint64, exact uint64) {
 // Decoders run on the run goroutine (so that panics keep their stack). A decode
 // that never returns cannot be turned into a violation from inside; the
 // watchdog prints the input and kills the process, which the orchestrator
-// reports as TROUBLE with this text. 60 s without leaving one decode call is
-// five orders of magnitude above the normal cost; CPU contention cannot trip it.
+// reports as TROUBLE with this text. Two minutes inside one decode call is
+// six orders of magnitude above the normal cost; CPU contention cannot trip it.
 
 type inflight struct {
 	what string
@@ -255,21 +266,26 @@ func leave() { curDecode.Store(nil) }
 func startWatchdog() {
 	wdOnce.Do(func() {
 		go func() {
+			// counts consecutive 2 s ticks that see the SAME decode in flight (ticks,
+			// not wall time: a suspended VM or a clock step must not trip it)
 			var last uint64
-			var since time.Time
+			ticks := 0
 			for {
 				time.Sleep(2 * time.Second)
 				p := curDecode.Load()
 				if p == nil {
-					last = 0
+					last, ticks = 0, 0
 					continue
 				}
 				if p.seq != last {
-					last, since = p.seq, time.Now()
+					last, ticks = p.seq, 0
 					continue
 				}
-				if time.Since(since) > 60*time.Second {
-					fmt.Fprintf(os.Stderr, "HANG world=bytes decoder=%s did not return within 60s input=%s\n", p.what, hex.EncodeToString(p.data))
+				ticks++
+				if ticks >= 60 {
+					buf := make([]byte, 1<<20)
+					buf = buf[:runtime.Stack(buf, true)]
+					fmt.Fprintf(os.Stderr, "%s\nHANG world=bytes decoder=%s did not return within %d watchdog ticks of 2s; input=%s\n", buf, p.what, ticks, hex.EncodeToString(p.data))
 					os.Exit(3)
 				}
 			}
